@@ -266,7 +266,7 @@ def locals_describe(sess, evs, idx):
 
 def locals_cfg(progs, rules, maxex):
     return ("SPECIFICATION LSpec\nCHECK_DEADLOCK FALSE\nCONSTANTS\n  LProgs <- %s\n  LRules <- %s\n  MaxEx = %d\n"
-            "INVARIANTS ReadsOwnWrites StartUndefined SharedInjected\n" % (progs, rules, maxex))
+            "INVARIANTS ReadsOwnWrites StartUndefined SharedInjected PlainNames\n" % (progs, rules, maxex))
 
 
 def locals_gen_cfg(a, b):
@@ -280,6 +280,8 @@ def check_c15(run):
     _mc(run, "LocalsMC.tla", "mcl.cfg", locals_cfg("Progs2", "Rules2", 2 if quick else 3))
     recsL, _ = _gen(run, "LocalsGen.tla", "gl.cfg", locals_gen_cfg("Progs3L" if not quick else "Progs2L", "Progs2L"), "locals")
     recsI, _ = _gen(run, "LocalsGen.tla", "gi.cfg", locals_gen_cfg("Progs2", "Progs2"), "inj")
+    _mc(run, "LocalsMC.tla", "mcp.cfg", locals_cfg("Progs2P", "Rules2", 2 if quick else 3))
+    recsP, _ = _gen(run, "LocalsGen.tla", "gp.cfg", locals_gen_cfg("Progs3P" if not quick else "Progs2P", "Progs2P"), "plain")
     sessions = []
     sid = 0
 
@@ -395,6 +397,22 @@ def check_c15(run):
                          "parallel": False, "rules": rules_of(rec), "calls": [mkcall(m, extra), mkcall("Execute", {})]})
     if quick and len(sessions) > 3200:
         sessions = rng.sample(sessions, 3200)
+    # plain names that are injected by some calls on a rule set and not by others: the same assignment statement binds
+    # a local in one call and writes the caller's cell in the next (sequential models: log order = real order)
+    plain = []
+    for rec in recsP:
+        if not any(o["k"] in ("WP", "RP") for r in rec["rules"] for o in r["ops"]):
+            continue
+        sid += 1
+        calls = []
+        for _ in range(rng.randint(2, 4)):
+            m, extra = rng.choice(SEQ_SAFE)
+            calls.append(dict(mkcall(m, extra), pin=rng.random() < 0.5))
+        plain.append({"id": sid, "kind": "locals", "target": rng.choice(["engine", "pool"]), "gated": rng.random() < 0.3,
+                      "parallel": False, "rules": rules_of(rec), "calls": calls})
+    if quick and len(plain) > 500:
+        plain = rng.sample(plain, 500)
+    sessions += plain
     ns = _run(run, sessions, "locals", "LocalsTrace.tla", "LocalsTrace.cfg", locals_describe)
     if getattr(run, "collect", None) is not None:
         return 0
